@@ -101,7 +101,24 @@ pub fn run(opts: &Opts) -> Run {
         let (dict, samples, id, _content) = dicts[di].clone();
         // data resembling the samples (so the dictionary is actually referenced), data that BEGINS with the beginning of
         // the dictionary content (the compressor then emits the farthest legal match: back to the first dictionary byte), or unrelated
-        let data = if i % 4 == 1 {
+        let other_offsets = dict.len() >= _content.len() + 12 && {
+            let pos = dict.len() - _content.len() - 12;
+            dict[pos..pos + 4] != [1, 0, 0, 0]
+        };
+        let data = if other_offsets && _content.len() > 600 {
+            // a dictionary whose repeat offsets are 100 / 300 / 500: data that begins with what lies exactly 100, then 300, then
+            // 500 bytes before its own position in dictionary+output, so the compressor's first sequences are repeat codes
+            let n = _content.len();
+            let mut d = _content[n - 100..n - 100 + 40].to_vec();
+            let at = n + d.len();
+            d.extend_from_slice(&_content[at - 300 - d.len().min(0)..at - 300 + 30]);
+            let at2 = n + d.len();
+            d.extend_from_slice(&_content[at2 - 500..at2 - 500 + 30]);
+            let n_ = rng.below(1500) as usize;
+            d.extend_from_slice(&gen::data(&mut rng, "text", n_));
+            run.stat("data_using_dictionary_repeat_offsets", 1);
+            d
+        } else if i % 4 == 1 {
             let k_ = (*rng.pick(&[8usize, 40, 300, 5000])).min(_content.len());
             let mut d = _content[..k_].to_vec();
             let n_ = rng.below(2000) as usize;
